@@ -12,7 +12,8 @@ pub const MAX_STREAM_BITS: usize = 64 << 23; // 64 MiB
 
 pub fn make_config(c: &Cfg, multithread: bool, block_size: usize) -> config::Encoder {
     let mut e = config::Encoder::default();
-    e.block_size = block_size;
+    // the block size argument of the encode call overrides the configured one
+    e.block_size = if c.cfg_bs_mismatch { if block_size == 4096 { 1024 } else { 4096 } } else { block_size };
     e.multithread = multithread;
     e.workers = std::num::NonZeroUsize::new(c.workers as usize);
     e.stereo_coding.use_leftside = c.ls;
